@@ -5,17 +5,47 @@ record("CallInfo", fields={})
 record("PyName", fields={})
 record("ArgumentMapping", fields={"param_dict": "Map[Str,Str]"})
 record("_DefinitionGenerator", fields={"definition_params": "Map[Str,Opt[Str]]", "definition_info": "DefinitionInfo"})
-contract("functionutils.CallInfo.read", abstract=True, params={"primary": "Opt[Str]", "pyname": "PyName", "definition_info": "DefinitionInfo", "code": "Str"},
-         returns="CallInfo", note="call parser (not under contract)")
+specfun("callinfo_of", ["Opt[Str]", "PyName", "DefinitionInfo", "Str"], "CallInfo", note="functionutils.CallInfo.read(primary, pyname, definition_info, code)")
+specfun("binding", ["DefinitionInfo", "CallInfo"], "Map[Str,Str]", note="ArgumentMapping(definition_info, call_info).param_dict: parameter -> argument text (c06_mapping.py)")
+contract("functionutils.CallInfo.read", abstract=True, pure=True, heap_independent=True,
+         params={"primary": "Opt[Str]", "pyname": "PyName", "definition_info": "DefinitionInfo", "code": "Str"},
+         returns="CallInfo", ensures=["result == callinfo_of(primary, pyname, definition_info, code)"], note="call parser (not under contract)")
 contract("ArgumentMapping.__init__", abstract=True, params={"self": "ArgumentMapping", "definition_info": "DefinitionInfo", "call_info": "CallInfo"},
-         modifies=["self.param_dict"], note="binding of the call's arguments: proved in c06_mapping.py")
+         modifies=["self.param_dict"], ensures=["self.param_dict == binding(definition_info, call_info)"],
+         note="binding of the call's arguments: proved in c06_mapping.py")
+contract("Str.replace", external=True, pure=True, params={"self": "Str", "old": "Str", "new": "Str"}, returns="Str", note="str.replace (argument text on one line)")
+# the value a parameter is initialised with at this call site: the bound argument text, else the definition's default (None: no default)
+specdef("eff", {"g": "_DefinitionGenerator", "b": "Map[Str,Str]", "n": "Str"}, "Opt[Str]",
+        "ite(not is_none(select(b, n)), select(b, n), ite(not is_none(select(g.definition_params, n)), val(select(g.definition_params, n)), None))")
+specdef("is_param", {"g": "_DefinitionGenerator", "b": "Map[Str,Str]", "n": "Str"}, "Bool",
+        "not is_none(select(b, n)) or not is_none(select(g.definition_params, n))")
+specdef("has_s", {"s": "Seq[Str]", "x": "Str"}, "Bool", "exists(lambda k: 0 <= k and k < len(s) and s[k] == x)")
+B = "binding(self.definition_info, callinfo_of(primary, pyname, self.definition_info, call))"
 contract("_DefinitionGenerator._calculate_header", source=M + "_DefinitionGenerator._calculate_header",
          params={"self": "_DefinitionGenerator", "primary": "Opt[Str]", "pyname": "PyName", "call": "Str"}, returns="Tuple[Str,Seq[Str]]",
          modifies=["ArgumentMapping.param_dict[*]"], raises={},
-         locals={"to_be_inlined": "Seq[Str]", "paramdict": "Map[Str,Opt[Str]]"},
-         loops={1: {"index": "i", "inv": ["True"]}, 2: {"index": "j", "inv": ["True"]}},
-         ensures=["self.definition_params == old(self.definition_params)"],
-         note="frame: the per-definition parameter map (names -> defaults) is the same after a call site was processed, so call sites are independent")
+         locals={"to_be_inlined": "Seq[Str]", "paramdict": "Map[Str,Opt[Str]]", "header": "Str"},
+         loops={1: {"index": "i", "inv": [
+                    "self.definition_params == old(self.definition_params)", "mapping.param_dict == " + B,
+                    # entries seen so far override the definition's defaults; every other name still has its default
+                    "forall(lambda q: implies(0 <= q and q < i, select(paramdict, elem_at(q)[0]) == Some(Some(elem_at(q)[1]))))",
+                    "forall(lambda n: implies(forall(lambda q: implies(0 <= q and q < i, elem_at(q)[0] != n)), select(paramdict, n) == select(self.definition_params, n)), 'Str')"]},
+                2: {"index": "j", "inv": [
+                    "self.definition_params == old(self.definition_params)",
+                    "forall(lambda t: implies(0 <= t and t < len(to_be_inlined), exists(lambda q: 0 <= q and q < j and elem_at(q)[0] == to_be_inlined[t] and "
+                    "       not is_none(elem_at(q)[1]) and elem_at(q)[0] != val(elem_at(q)[1]))))",
+                    "forall(lambda q: implies(0 <= q and q < j and not is_none(elem_at(q)[1]) and elem_at(q)[0] != val(elem_at(q)[1]), elem_at(q)[0] in to_be_inlined))",
+                    "implies(len(to_be_inlined) == 0, header == '')", "implies(len(to_be_inlined) > 0, header.endswith('\\n'))",
+                    "forall(lambda t: implies(0 <= t and t < len(to_be_inlined), (to_be_inlined[t] + ' = ') in header))"]}},
+         ensures=["self.definition_params == old(self.definition_params)",
+                  # the header: empty when nothing is initialised, else newline-terminated with a `name = ` line start for every initialised parameter
+                  "implies(len(result[1]) == 0, result[0] == '')", "implies(len(result[1]) > 0, result[0].endswith('\\n'))",
+                  "forall(lambda t: implies(0 <= t and t < len(result[1]), (result[1][t] + ' = ') in result[0]))",
+                  # the parameters that get an initialising line are exactly those whose value at this call site exists and is not the name itself
+                  "forall(lambda n: implies(has_s(result[1], n), is_param(self, " + B + ", n) and not is_none(eff(self, " + B + ", n)) and val(eff(self, " + B + ", n)) != n), 'Str')",
+                  "forall(lambda n: implies(is_param(self, " + B + ", n) and not is_none(eff(self, " + B + ", n)) and val(eff(self, " + B + ", n)) != n, n in result[1]), 'Str')"],
+         note="frame: the per-definition parameter map (names -> defaults) is the same after a call site was processed, so call sites are independent; "
+              "and which parameters are initialised in the header is decided by this call's binding over the definition's defaults (the header text itself is opaque)")
 
 from bounded import c04_inline as _b4
 bounded_check(name="c04-pairs", fn=_b4.run_case, domain=_b4.domain, exhaustive=True, serial=True,
